@@ -77,7 +77,7 @@ H(name="enc_format_cs3_pass", crate="kestrel-crypto", props=["C02", "C06", "C07"
 H(name="enc_faults_cs2", crate="kestrel-crypto", props=["C10"], est_s=300,
   desc="one fault (Interrupted/WouldBlock/BrokenPipe/Other, or Ok(0) write) at a solver-chosen read/write/flush call of encrypt_chunks: never a panic; read fault => IORead, write/flush fault => IOWrite; Ok only without fault or after a retried Interrupted write; what was written is a prefix of the model output; nothing written after the failure",
   funcs=ENC_FUNCS, bounds="chunk size 2, plaintext 0..3 bytes, greedy reads, fault index 0..4, one fault per run", env=[E_AEAD, E_ZERO], outside="two or more faults per run")
-H(name="enc_short_writes_cs1", crate="kestrel-crypto", props=["C10", "C01"], est_s=300,
+H(name="enc_short_writes_cs1", crate="kestrel-crypto", props=["C10", "C01", "C02"], tier="thorough", est_s=1500, timeout=5400, mem_gb=12,
   desc="a sink accepting a solver-chosen part (1..8 bytes) of EVERY write, std's real write_all loop: encrypt_chunks still succeeds and the byte stream equals the model",
   funcs=ENC_FUNCS + ["std::io::Write::write_all (std)"], bounds="chunk size 1, plaintext 0..1 byte (one record of 32..33 bytes, every split into writes of 1..8 bytes)", env=[E_AEAD, E_ZERO], outside="longer files (write_all is std code)")
 
@@ -106,7 +106,7 @@ H(name="dec_model_cs2_n3_pass", crate="kestrel-crypto", props=["C02", "C06"], es
   desc=MOD_DESC, funcs=DEC_FUNCS, bounds="chunk size 2; 1..3 chunks; password mode", env=[E_AEAD, E_ZERO], outside="> 3 chunks")
 H(name="dec_model_cs3_n5", crate="kestrel-crypto", props=["C01", "C06"], tier="thorough", est_s=1500, timeout=5400, mem_gb=16,
   desc=MOD_DESC, funcs=DEC_FUNCS, bounds="chunk size 3; 1..5 chunks", env=[E_AEAD, E_ZERO], outside="> 5 chunks")
-H(name="dec_short_reads_cs1", crate="kestrel-crypto", props=["C10", "C01"], est_s=300,
+H(name="dec_short_reads_cs1", crate="kestrel-crypto", props=["C10", "C01"], tier="thorough", est_s=1500, timeout=5400, mem_gb=12,
   desc="the authentic stream delivered in solver-chosen short reads (1..8 bytes), std's real read_exact loop: same result",
   funcs=DEC_FUNCS + ["std::io::Read::read_exact (std)"], bounds="chunk size 1, one chunk of 0..1 byte", env=[E_AEAD, E_ZERO], outside="longer files (read_exact is std code)")
 
@@ -139,18 +139,18 @@ for _part, _what in (("hash", "the hash chain: five MixHash inputs (h0||prologue
                      ("seal", "s and payload sealed under the es / ss key, nonce 0, AD = h")):
     # (a fourth slice, 'msg': message = e || enc s || enc payload read back from the heap Vec, exhausts memory;
     #  the layout is decided from the reader's side by noise_read_lockstep_* and from the header by hdr_key_encrypt)
-    H(name="noise_write_lockstep_" + _part, crate="kestrel-crypto", mod="noise::verif_noise", props=["C01", "C05", "C06", "C08"], est_s=500, timeout=3000, mem_gb=24, rlimit_gb=36,
+    H(name="noise_write_lockstep_" + _part, crate="kestrel-crypto", mod="noise::verif_noise", props=["C01", "C05", "C06", "C08"], est_s=300, timeout=3000, mem_gb=9, rlimit_gb=30,
       desc="HandshakeState::{init_x, write_message} trace == Noise_X pattern of the Noise spec; this harness decides " + _what,
       funcs=["noise::HandshakeState::init_x", "noise::HandshakeState::write_message", "noise::HandshakeState::get_pubkey", "noise::SymmetricState::*", "noise::CipherState::*"],
       bounds="all key material, prologue (4 bytes) and 32-byte payload; one handshake", env=NOISE_ENV, outside="the primitives themselves (C19); payloads other than 32 bytes")
 for _part, _what in (("hash", "the hash chain over prologue, OWN static key, e, enc s, enc payload; handshake hash"),
                      ("keys", "es = DH(own static, e), ss = DH(own static, decrypted sender key), MixKey chain, Split"),
                      ("open", "both values opened under the es / ss key, nonce 0, AD = h; returned payload and reported sender are what was opened")):
-    H(name="noise_read_lockstep_" + _part, crate="kestrel-crypto", mod="noise::verif_noise", props=["C01", "C05", "C06"], est_s=500, timeout=3000, mem_gb=24, rlimit_gb=36,
+    H(name="noise_read_lockstep_" + _part, crate="kestrel-crypto", mod="noise::verif_noise", props=["C01", "C05", "C06"], est_s=300, timeout=3000, mem_gb=9, rlimit_gb=30,
       desc="HandshakeState::{init_x, read_message} trace on ANY 128-byte message == Noise_X responder pattern; this harness decides " + _what,
       funcs=["noise::HandshakeState::init_x", "noise::HandshakeState::read_message", "noise::HandshakeState::get_pubkey", "noise::SymmetricState::*", "noise::CipherState::*"],
       bounds="all key material, prologue and 128 message bytes; one handshake", env=NOISE_ENV, outside="the primitives themselves (C19)")
-H(name="noise_ephemeral_consistency", crate="kestrel-crypto", mod="noise::verif_noise", props=["C07", "C08", "C06"], est_s=400, timeout=3000, mem_gb=16, rlimit_gb=36,
+H(name="noise_ephemeral_consistency", crate="kestrel-crypto", mod="noise::verif_noise", props=["C07", "C08", "C06"], est_s=300, timeout=3000, mem_gb=9, rlimit_gb=30,
   desc="for every combination of caller-supplied ephemeral arguments (Some/None x Some/None): the 32 bytes sent in clear are the public half of the private key used for es - the caller's pair, or a FRESH 32-byte CSPRNG draw and its derived public key; never anything derived from a static key",
   funcs=["noise::HandshakeState::init_x", "noise::HandshakeState::write_message", "PrivateKey::generate", "PrivateKey::to_public"], bounds="all key material; 4 option combinations",
   env=NOISE_ENV + ["secure_random -> fresh unconstrained bytes (logged)", "x25519_derive_public uninterpreted (logged)"], outside="")
@@ -246,6 +246,10 @@ H(name="cmd_change_pass", crate="kestrel-cli", mod="commands::verif_cmd", props=
   funcs=["commands::change_pass"], bounds="one step from an arbitrary (key, blob, passwords) state", env=CMD_ENV, outside=CMD_OUT + "; text of the printed line")
 H(name="cmd_extract_pub", crate="kestrel-cli", mod="commands::verif_cmd", props=["C16", "C12"], est_s=120, replay="model",
   desc="extract_pub: unlock(given blob, password) -> derive public key of exactly that private key -> keyring encoding -> one line printed; nothing else", funcs=["commands::extract_pub"], bounds="all outcomes of prompt / decode / unlock", env=CMD_ENV, outside=CMD_OUT)
+H(name="cmd_env_passwords", crate="kestrel-cli", mod="commands::verif_cmd", props=["C16", "C02", "C14", "C12"], est_s=120, replay="model",
+  desc="ask_pass / confirm_password / confirm_new_pass / read_env_pass with --env-pass: the password is the value of KESTREL_PASSWORD (KESTREL_NEW_PASSWORD for change-pass's new password) byte for byte, whitespace included; unset variable => Err",
+  funcs=["commands::ask_pass", "commands::confirm_password", "commands::confirm_new_pass", "commands::read_env_pass", "commands::read_env_new_pass"], bounds="variable set (value with leading/trailing space) or unset; four entry points",
+  env=["std::env::var replaced by a model keyed on the variable name"] + CMD_ENV[3:4], outside="interactive prompts (passterm)")
 H(name="main_exit_status", crate="kestrel-cli", mod="verif_main", props=["C12"], est_s=60, replay="model",
   desc="main(): process::exit(1) is called iff try_main returned Err, after printing an error line; otherwise main returns normally (status 0)", funcs=["main"], bounds="both outcomes of try_main", env=["try_main, process::exit, _eprint replaced by recorders"], outside=CMD_OUT)
 H(name="main_slice_args", crate="kestrel-cli", mod="verif_main", props=["C09", "C12"], est_s=30, replay="playback",
@@ -253,20 +257,21 @@ H(name="main_slice_args", crate="kestrel-cli", mod="verif_main", props=["C09", "
 
 # std's substring search nests loops (CharSearcher::next_match -> memchr): with one global bound the nesting is
 # quadratic and symex runs out of memory inside the first `lines().next()`. Per-loop bounds for lines <= 62 bytes:
-STR_UNWIND = ["_RNvNtNtCs8xvirJzNMvV_4core5slice6memchr12memchr_naiveCscPEpKYx75LN_7kestrel.0:18",
-              "_RNvNvNtNtCs8xvirJzNMvV_4core5slice6memchr14memchr_aligned7runtimeCscPEpKYx75LN_7kestrel.0:8",
-              "_RNvXs_NtNtCs8xvirJzNMvV_4core3str7patternNtB4_12CharSearcherNtB4_8Searcher10next_matchCscPEpKYx75LN_7kestrel.0:4"]
+STR_UNWIND = ["_RNvNtNtCs8xvirJzNMvV_4core5slice6memchr12memchr_naiveCscPEpKYx75LN_7kestrel.0:17",
+              "_RNvNvNtNtCs8xvirJzNMvV_4core5slice6memchr14memchr_aligned7runtimeCscPEpKYx75LN_7kestrel.0:4",
+              "_RNvXs_NtNtCs8xvirJzNMvV_4core3str7patternNtB4_12CharSearcherNtB4_8Searcher10next_matchCscPEpKYx75LN_7kestrel.0:4",
+              "_RNvMs2_NtCscPEpKYx75LN_7kestrel7keyringNtB5_7Keyring12parse_config.0:8"]
 PARSER_OUT = "arbitrary UTF-8 texts and exhaustive token sequences: std's str::lines/trim/retain/memchr on symbolic text are out of reach of the bit-blasting back end in quick-tier time (DESIGN 6.1)"
 H(name="c17_name_roundtrip", crate="kestrel-cli", mod="keyring::verif_keyring", unwindset=STR_UNWIND, props=["C17", "C14"], tier="thorough", optional=True, est_s=3000, timeout=7200, mem_gb=16, replay="model",
   desc="the [Key] section text key generation writes (transcribed format) for ANY accepted name of 1..2 ASCII bytes without TAB parses back to exactly that name and public key, and is found by get_key",
   funcs=["keyring::Keyring::new", "keyring::Keyring::parse_config", "keyring::Keyring::add_key", "keyring::Keyring::get_key", "keyring::EncodedPk::try_from"],
   bounds="names of 1..2 ASCII bytes (no NUL, LF, TAB; no leading/trailing whitespace)", env=KR_ENV[2:3], outside="names > 2 bytes; non-ASCII names; serialize_key's own formatting (transcribed)")
-H(name="c17_name_roundtrip_tab", crate="kestrel-cli", mod="keyring::verif_keyring", unwindset=STR_UNWIND, props=["C17"], est_s=300, timeout=2400, replay="model",
+H(name="c17_name_roundtrip_tab", crate="kestrel-cli", mod="keyring::verif_keyring", unwindset=STR_UNWIND, props=["C17"], tier="thorough", optional=True, est_s=3600, timeout=9000, mem_gb=16, replay="model",
   desc="KNOWN FINDING F4: the same round trip for the concrete name a<TAB>b (expected to fail: the parser deletes every TAB)", funcs=["keyring::Keyring::parse_config"], bounds="one concrete text", env=KR_ENV[2:3], outside="")
 H(name="c17_sections", crate="kestrel-cli", mod="keyring::verif_keyring", unwindset=STR_UNWIND, props=["C17"], tier="thorough", optional=True, est_s=3000, timeout=7200, mem_gb=16, replay="model",
   desc="Keyring::new on two sections with symbolic one-byte names and symbolic key choice: accepted iff names differ and keys differ; entries in order",
   funcs=["keyring::Keyring::new", "keyring::Keyring::parse_config", "keyring::Keyring::add_key"], bounds="names in a..c x a..c, same/different public key", env=KR_ENV[2:3], outside=PARSER_OUT)
-H(name="c17_shapes", crate="kestrel-cli", mod="keyring::verif_keyring", unwindset=STR_UNWIND, props=["C17", "C09"], auto_props=["C09", "C17"], est_s=600, timeout=3000, replay="model",
+H(name="c17_shapes", crate="kestrel-cli", mod="keyring::verif_keyring", unwindset=STR_UNWIND, props=["C17", "C09"], auto_props=["C09", "C17"], tier="thorough", optional=True, est_s=7000, timeout=14000, mem_gb=16, replay="model",
   desc="Keyring::new on ten concrete section shapes (empty first/last section, field outside section, missing field, field twice, comments/blank/no final newline, junk, malformed private key, empty file): accepted iff the documented rule says so; entries = sections; never a panic",
   funcs=["keyring::Keyring::new", "keyring::Keyring::parse_config", "keyring::Keyring::add_key"], bounds="ten concrete texts of <= 110 bytes, executed one after the other (concrete cases, not solver-chosen)", env=KR_ENV[2:3], outside=PARSER_OUT)
 
